@@ -111,9 +111,9 @@ Proof.
     intros y Hy. apply in_map_iff in Hy. destruct Hy as (e & <- & He). apply Hb. exact He.
   - apply ins_write_below. exact Hb.
   - rewrite E3. exact Hr.
-  - intros Hpk e He Hk. specialize (Hc Hpk). rewrite E1 in He. rewrite E2.
+  - intros Hpk e He Hl Hk. specialize (Hc Hpk). rewrite E1 in He. rewrite E2.
     apply in_app_or in He. destruct He as [He|[He|[]]].
-    + pose proof (Hc e He Hk) as Hm. destruct (has_key sch r); [rewrite kmem_app, Hm; reflexivity | exact Hm].
+    + pose proof (Hc e He Hl Hk) as Hm. destruct (has_key sch r); [rewrite kmem_app, Hm; reflexivity | exact Hm].
     + subst e. cbn [e_row] in *. rewrite Hk. apply has_key_kmem_app.
 Qed.
 
@@ -224,27 +224,46 @@ Lemma partf_none : forall sc v sel y, partf sc v sel [] y = updf sc v sel y.
 Proof. reflexivity. Qed.
 
 (* what a covered UPDATE does, whichever path it takes *)
-Lemma select_sub : forall sch w st e, In e (select sch w st) -> In e (ents st).
+Lemma select_sub_live : forall sch w st e, In e (select sch w st) -> In e (ents st) /\ live e = true.
 Proof.
   intros sch w st e H. unfold select in H. destruct (pk_target sch w st) as [t|] eqn:E.
   - destruct H as [H|[]]. subst t. unfold pk_target in E.
     destruct (pk_info sch w st) as [[id v]|]; [|discriminate].
     destruct (find_ent id (ents st)) as [x|] eqn:Ef; [|discriminate].
-    destruct (value_eqb (c0 (e_row x)) v); [|discriminate]. injection E as <-.
-    apply find_ent_In in Ef. tauto.
-  - apply filter_In in H. tauto.
+    destruct (live x && value_eqb (c0 (e_row x)) v) eqn:El; [|discriminate]. injection E as <-.
+    apply andb_true_iff in El. apply find_ent_In in Ef. tauto.
+  - apply filter_In in H. destruct H as [H1 H2]. apply andb_true_iff in H2. tauto.
 Qed.
 
-Lemma upd_sel_sub : forall sch st sc w e, In e (upd_sel sch st sc w) -> In e (ents st).
+Lemma upd_sel_sub_live : forall sch st sc w e, In e (upd_sel sch st sc w) -> In e (ents st) /\ live e = true.
 Proof.
   intros sch st sc w e H. unfold upd_sel in H.
   destruct (pk_info sch w st) as [[id wv]|].
-  - destruct (negb (is_c0 sc && keyed sch) && negb (has_toast sch)).
+  - destruct (negb (idx_mod sch sc) && negb (has_toast sch)).
     + destruct (find_ent id (ents st)) as [x|] eqn:Ef; [|destruct H].
-      destruct (value_eqb (c0 (e_row x)) wv); [|destruct H]. destruct H as [H|[]]. subst x.
-      apply find_ent_In in Ef. tauto.
-    + eapply select_sub. exact H.
-  - eapply select_sub. exact H.
+      destruct (live x && value_eqb (c0 (e_row x)) wv) eqn:El; [|destruct H]. destruct H as [H|[]]. subst x.
+      apply andb_true_iff in El. apply find_ent_In in Ef. tauto.
+    + eapply select_sub_live. exact H.
+  - eapply select_sub_live. exact H.
+Qed.
+
+Lemma upd_sel_sub : forall sch st sc w e, In e (upd_sel sch st sc w) -> In e (ents st).
+Proof. intros sch st sc w e H. apply (upd_sel_sub_live _ _ _ _ _ H). Qed.
+
+Lemma upd_multi_shape : forall sch st sc v w r st2 es,
+  is_c0 sc && keyed sch = false ->
+  upd_multi sch st sc v w = (r, st2, es) ->
+  (st2 = st /\ es = []) \/
+  (let sel := select sch w st in
+   ents st2 = map (updf sc v sel) (ents st) /\ rcount st2 = rcount st /\ kidx st2 = kidx st /\
+   nextid st2 = nextid st /\ es = map wold sel).
+Proof.
+  intros sch st sc v w r st2 es Hk H. unfold upd_multi in H. cbv zeta in H. rewrite Hk in H. cbn [andb] in H.
+  assert (Hkx : (if is_c0 sc then upd_kidx sch v (select sch w st) (kidx st) else kidx st) = kidx st).
+  { destruct sc; cbn [is_c0] in *; [|reflexivity]. cbn [andb] in Hk. unfold upd_kidx. rewrite Hk. reflexivity. }
+  destruct (negb match select sch w st with [] => true | _ :: _ => false end && is_c0 sc && is_pk sch && is_null v).
+  - injection H as _ H2 H3. subst. left. split; reflexivity.
+  - injection H as _ H2 H3. subst st2 es. right. cbn [ents rcount kidx nextid]. rewrite Hkx. repeat split; reflexivity.
 Qed.
 
 Lemma do_update_shape : forall sch st sc v w r st2 es,
@@ -255,23 +274,15 @@ Lemma do_update_shape : forall sch st sc v w r st2 es,
    ents st2 = map (updf sc v sel) (ents st) /\ rcount st2 = rcount st /\ kidx st2 = kidx st /\
    nextid st2 = nextid st /\ es = map wold sel).
 Proof.
-  intros sch st sc v w r st2 es Hk H. unfold do_update in H. unfold upd_sel. rewrite Hk in *. cbn [negb andb] in *.
-  assert (Hkx : (if is_c0 sc then upd_kidx sch v (select sch w st) (kidx st) else kidx st) = kidx st).
-  { destruct sc; cbn [is_c0] in *; [|reflexivity]. cbn [andb] in Hk. unfold upd_kidx. rewrite Hk. reflexivity. }
-  destruct (pk_info sch w st) as [[id wv]|].
-  - destruct (negb (has_toast sch)).
-    + destruct (find_ent id (ents st)) as [x|] eqn:Ef.
-      * destruct (value_eqb (c0 (e_row x)) wv).
-        -- injection H as _ H2 H3. subst st2 es. right. apply find_ent_In in Ef. destruct Ef as [_ Ef]. subst id.
-           cbn [ents rcount kidx nextid]. repeat split; reflexivity.
-        -- injection H as _ H2 H3. subst. left. split; reflexivity.
-      * injection H as _ H2 H3. subst. left. split; reflexivity.
-    + destruct (negb match select sch w st with [] => true | _ :: _ => false end && is_c0 sc && is_pk sch && is_null v).
-      * injection H as _ H2 H3. subst. left. split; reflexivity.
-      * injection H as _ H2 H3. subst st2 es. right. cbn [ents rcount kidx nextid]. rewrite Hkx. repeat split; reflexivity.
-  - destruct (negb match select sch w st with [] => true | _ :: _ => false end && is_c0 sc && is_pk sch && is_null v).
+  intros sch st sc v w r st2 es Hk H. unfold do_update in H. unfold upd_sel.
+  destruct (pk_info sch w st) as [[id wv]|]; [|exact (upd_multi_shape _ _ _ _ _ _ _ _ Hk H)].
+  destruct (negb (idx_mod sch sc) && negb (has_toast sch)); [|exact (upd_multi_shape _ _ _ _ _ _ _ _ Hk H)].
+  destruct (find_ent id (ents st)) as [x|] eqn:Ef.
+  - destruct (live x && value_eqb (c0 (e_row x)) wv).
+    + injection H as _ H2 H3. subst st2 es. right. apply find_ent_In in Ef. destruct Ef as [_ Ef]. subst id.
+      cbn [ents rcount kidx nextid]. repeat split; reflexivity.
     + injection H as _ H2 H3. subst. left. split; reflexivity.
-    + injection H as _ H2 H3. subst st2 es. right. cbn [ents rcount kidx nextid]. rewrite Hkx. repeat split; reflexivity.
+  - injection H as _ H2 H3. subst. left. split; reflexivity.
 Qed.
 
 Lemma int_pk_keyed : forall sch, int_pk sch = true -> keyed sch = true.
@@ -280,18 +291,17 @@ Proof. intros sch H. unfold int_pk, is_pk in H. unfold keyed. destruct (s_kind s
 (* undo of the write entries of an UPDATE of a column that is not a key *)
 Lemma undo_update_inverts_l : forall sch st sc v w r st2 es,
   inv sch st -> is_c0 sc && keyed sch = false ->
-  (int_pk sch = false \/ forallb live (upd_sel sch st sc w) = true) ->
   do_update sch st sc v w = (r, st2, es) ->
   core3 (undo_list sch es st2) = core3 st.
 Proof.
-  intros sch st sc v w r st2 es (Hs & Hb & Hr & Hc) Hk Hlive H.
+  intros sch st sc v w r st2 es (Hs & Hb & Hr & Hc) Hk H.
   destruct (do_update_shape _ _ _ _ _ _ _ _ Hk H) as [[-> ->]|(E1 & E2 & E3 & _ & ->)].
   - rewrite undo_list_nil. reflexivity.
   - set (sel := upd_sel sch st sc w) in *.
     destruct (undo_update_ents sch sc v sel (ents st) (kidx st) sel [] st2) as (R1 & R2 & R3).
     + exact Hs.
     + intros e He. eapply upd_sel_sub. exact He.
-    + intros e He Hkey Hpk. apply (Hc Hpk); [eapply upd_sel_sub; exact He | exact Hkey].
+    + intros e He Hkey Hpk. destruct (upd_sel_sub_live _ _ _ _ _ He) as [Hin Hl]. apply (Hc Hpk e Hin Hl Hkey).
     + rewrite E1. apply map_ext. intro y. symmetry. apply partf_none.
     + exact E3.
     + unfold core3. rewrite R1, R2, R3, E2, app_nil_r. f_equal. f_equal.
@@ -313,9 +323,14 @@ Proof.
     + intros e He. rewrite E4. rewrite E1 in He. apply in_map_iff in He. destruct He as (y & <- & Hy).
       rewrite updf_id. apply Hb. exact Hy.
     + rewrite E2. exact Hr.
-    + intros Hpk e He Hkey. rewrite E3. rewrite E1 in He. apply in_map_iff in He. destruct He as (y & <- & Hy).
-      (* the key column is untouched *)
+    + intros Hpk e He Hl Hkey. rewrite E3. rewrite E1 in He. apply in_map_iff in He. destruct He as (y & <- & Hy).
+      (* the key column is untouched, and only live rows are updated *)
       assert (Hsc : sc = C1).
       { destruct sc; [|reflexivity]. cbn [is_c0 andb] in Hk. rewrite (int_pk_keyed _ Hpk) in Hk. discriminate. }
-      subst sc. unfold updf in *. destruct (in_sel sel y); cbn [e_row setc c0] in *; apply (Hc Hpk y Hy); exact Hkey.
+      subst sc. unfold updf in *. destruct (in_sel sel y) eqn:Ei.
+      * unfold in_sel in Ei. apply existsb_exists in Ei. destruct Ei as (s0 & Hs0 & Hid). apply Z.eqb_eq in Hid.
+        destruct (upd_sel_sub_live _ _ _ _ _ Hs0) as [Hin0 Hl0].
+        assert (s0 = y) by (eapply sorted_nodup_ids; eauto). subst s0.
+        cbn [e_row setc c0] in *. apply (Hc Hpk y Hy Hl0). exact Hkey.
+      * apply (Hc Hpk y Hy Hl Hkey).
 Qed.
